@@ -8,7 +8,6 @@ import (
 	"math/rand/v2"
 	"os"
 	"path/filepath"
-	"sort"
 	"strings"
 	"time"
 
@@ -35,7 +34,18 @@ type structure struct {
 var credNames = []string{"absent", "accept", "skip", "reject"}
 
 func schemeName(s int) string { return fmt.Sprintf("k%02d", s) }
-func headerName(s int) string { return fmt.Sprintf("X-K%02d", s) }
+
+// headerName alternates canonical and non-canonical spellings (net/http canonicalises
+// what arrives; the spec may spell the name any way).
+func headerName(s int) string {
+	switch s % 3 {
+	case 1:
+		return fmt.Sprintf("X-API-k%02d", s)
+	case 2:
+		return fmt.Sprintf("x-tenant-%02d", s)
+	}
+	return fmt.Sprintf("X-K%02d", s)
+}
 
 type opSpec struct {
 	st       structure
@@ -90,28 +100,36 @@ func reqYAML(reqs [][]int, indent string) string {
 	return b.String()
 }
 
-func glue(pkg string, used []int) string {
+func glue(mod *gencode.Module, pkg string) (string, error) {
+	sf, err := gencode.InspectDir(filepath.Join(mod.Dir, pkg), pkg)
+	if err != nil {
+		return "", err
+	}
 	var b strings.Builder
-	fmt.Fprintf(&b, "package main\n\nimport (\n\t\"context\"\n\t\"net/http\"\n\n\t\"github.com/ogen-go/ogen/middleware\"\n\n\tapi \"vmod/%s\"\n)\n\n", pkg)
+	fmt.Fprintf(&b, "package main\n\nimport (\n\t\"context\"\n\t\"net/http\"\n\n\t\"github.com/ogen-go/ogen/middleware\"\n\n\tapi \"vmod/%s\"\n)\n\nvar _ context.Context\n\n", pkg)
 	fmt.Fprintf(&b, "type sec_%s struct{}\n\n", pkg)
-	for _, s := range used {
-		fmt.Fprintf(&b, "func (sec_%[1]s) HandleK%02[2]d(ctx context.Context, op api.OperationName, t api.K%02[2]d) (context.Context, error) {\n\treturn decide(ctx, %[2]d, t.APIKey)\n}\n\n", pkg, s)
+	for _, m := range sf.SecMethods {
+		var n int
+		if _, err := fmt.Sscanf(m, "HandleK%d(", &n); err != nil {
+			return "", fmt.Errorf("unexpected SecurityHandler method %q", m)
+		}
+		fmt.Fprintf(&b, "func (sec_%s) %s {\n\treturn decide(a0, %d, a2.APIKey)\n}\n\n", pkg, m, n)
 	}
 	fmt.Fprintf(&b, "func init() {\n\tregister(%q, func(mw middleware.Middleware) (http.Handler, error) {\n", pkg)
-	if len(used) > 0 {
+	if sf.HasSecurity {
 		fmt.Fprintf(&b, "\t\treturn api.NewServer(api.UnimplementedHandler{}, sec_%s{}, api.WithMiddleware(mw))\n", pkg)
 	} else {
 		b.WriteString("\t\treturn api.NewServer(api.UnimplementedHandler{}, api.WithMiddleware(mw))\n")
 	}
 	b.WriteString("\t})\n}\n")
-	return b.String()
+	return b.String(), nil
 }
 
 const cliSpec = `openapi: 3.0.3
 info: {title: t, version: "1"}
 components:
   securitySchemes:
-    hk: {type: apiKey, in: header, name: X-Api}
+    hk: {type: apiKey, in: header, name: X-API-Token}
     qk: {type: apiKey, in: query, name: api_key}
     ck: {type: apiKey, in: cookie, name: sid}
     ba: {type: http, scheme: basic}
@@ -397,28 +415,12 @@ func Check(r *core.Run) error {
 			return fmt.Errorf("generate %s: %w", p.name, err)
 		}
 		_ = g
-		usedSet := map[int]bool{}
-		for _, op := range p.ops {
-			rq := op.st.Reqs
-			if op.override == "global" {
-				rq = global
-			}
-			if op.override == "empty" {
-				rq = nil
-			}
-			for _, alt := range rq {
-				for _, s := range alt {
-					usedSet[s] = true
-				}
-			}
-		}
-		var used []int
-		for s := range usedSet {
-			used = append(used, s)
-		}
-		sort.Ints(used)
 		opOf[p.name] = p.ops
-		return mod.WriteFile("drv/glue_"+p.name+".go", []byte(glue(p.name, used)))
+		gl, err := glue(mod, p.name)
+		if err != nil {
+			return err
+		}
+		return mod.WriteFile("drv/glue_"+p.name+".go", []byte(gl))
 	}
 	hdr := func(n int) []string {
 		h := make([]string, n)
@@ -487,6 +489,24 @@ func Check(r *core.Run) error {
 		b, _ := json.Marshal(map[string]any{"k": "gen", "reqs": s.Reqs, "notImpl": s.NotImpl, "outcome": outcome, "n": s.N,
 			"cred": []string{}, "calls": []int{}, "res": []string{}, "status": 0, "kind": "", "a": []int{}, "b": []int{}, "ga": []int{}, "gb": []int{}, "called": false, "scopes": []string{}})
 		genLines = append(genLines, b)
+		if outcome == "ok" {
+			// the compiled package is also served: the kept alternatives are what must be enforced
+			gl, err := glue(mod, name)
+			if err != nil {
+				return err
+			}
+			if err := mod.WriteFile("drv/glue_"+name+".go", []byte(gl)); err != nil {
+				return err
+			}
+			opOf[name] = []opSpec{{st: s}}
+			for _, cr := range s.Creds {
+				c := make([]string, len(cr))
+				for k, v := range cr {
+					c[k] = credNames[v]
+				}
+				reqs = append(reqs, reqT{Pkg: name, Op: 0, Path: "/o0", Cred: c, Hdr: hdr(len(cr))})
+			}
+		}
 	}
 	r.Cov("generation_only_structures", len(genOnly))
 
@@ -589,7 +609,11 @@ func Check(r *core.Run) error {
 			calls = append(calls, c.S)
 			ress = append(ress, c.Res)
 		}
-		b, _ := json.Marshal(map[string]any{"k": "req", "reqs": op.st.Reqs, "notImpl": []int{}, "outcome": d.Outcome, "n": len(d.Cred),
+		ni := op.st.NotImpl
+		if ni == nil {
+			ni = []int{}
+		}
+		b, _ := json.Marshal(map[string]any{"k": "req", "reqs": op.st.Reqs, "notImpl": ni, "outcome": d.Outcome, "n": len(d.Cred),
 			"cred": d.Cred, "calls": calls, "res": ress, "status": d.Status, "kind": op.override, "a": []int{}, "b": []int{}, "ga": []int{}, "gb": []int{}, "called": false, "scopes": []string{}})
 		obsLines = append(obsLines, b)
 		desc = append(desc, fmt.Sprintf("security %v (%s) credentials %v -> SecurityHandler calls %v, outcome %s, status %d", op.st.Reqs, orDefault(op.override, "operation-level"), d.Cred, d.Calls, d.Outcome, d.Status))
